@@ -218,6 +218,24 @@ Theorem support_nonempty : forall l legal,
 Proof. exact masked_support_nonempty_lemma. Qed.
 Print Assumptions support_nonempty.
 
+(* The sampler itself (torch.multinomial for one draw = exponential race argmax_i p_i / q_i, q_i > 0): for ALL positive
+   draws the sampled index has positive probability ... *)
+Theorem multinomial_sample_positive : forall p q k pk,
+  length p = length q -> (forall x, In x q -> 0 < x) ->
+  nth_error p k = Some pk -> 0 < pk ->
+  exists pr, nth_error p (multinomial_exp p q) = Some pr /\ 0 < pr.
+Proof. exact multinomial_positive_lemma. Qed.
+Print Assumptions multinomial_sample_positive.
+
+(* ... hence a masked head (weights zero outside the support of the masked logits) samples a LEGAL action for all draws *)
+Theorem sampled_action_legal : forall l legal weights q k xk wk,
+  length weights = length q -> (forall x, In x q -> 0 < x) ->
+  nth_error legal k = Some true -> nth_error l k = Some xk -> NEG + UNDERFLOW <= xk ->
+  In k (masked_support l legal) -> nth_error weights k = Some wk -> 0 < wk ->
+  nth_error legal (sample_masked l legal weights q) = Some true.
+Proof. exact sample_masked_legal_lemma. Qed.
+Print Assumptions sampled_action_legal.
+
 (* MultiDiscrete component-wise, MultiBinary bit-wise *)
 Theorem multidiscrete_support_legal : forall nvec l legal,
   Forall (fun '(lc, mc) => comp_ok lc mc) (combine (split_by nvec l) (split_by nvec legal)) ->
@@ -277,4 +295,8 @@ Proof.
 Qed.
 Example support_nonvacuous :
   masked_support [50; -50; 0] [false; true; true] = [1%nat; 2%nat].
+Proof. reflexivity. Qed.
+(* the masked action has by far the largest logit and the smallest draw: it is still never sampled *)
+Example sample_nonvacuous :
+  sample_masked [50; -50; 0] [false; true; true] [9#10; 1#100; 9#100] [1#1000; 5; 3] = 2%nat.
 Proof. reflexivity. Qed.
